@@ -1644,7 +1644,19 @@ class Fn:
             return self.name(e)
         if isinstance(e, ast.Tuple) or isinstance(e, ast.List):
             if any(isinstance(x, ast.Starred) for x in e.elts):
-                raise Unsupported("starred element in a display")
+                # x4: `[a, *xs, b]` — elements evaluated and unpacked left to right into a fresh list (`tuple(...)` of it
+                # for a tuple display)
+                if any(isinstance(x, ast.Starred) and isinstance(x.value, ast.Starred) for x in e.elts):
+                    raise Unsupported("nested star in a display")
+                acc = "(PyVal.list [])"
+                for x in e.elts:
+                    if isinstance(x, ast.Starred):
+                        acc = f"(← PyRt.list_extend {acc} {self.val(x.value)})"
+                    else:
+                        acc = f"(← PyRt.list_append {acc} {self.val(x)})"
+                if isinstance(e, ast.Tuple):
+                    return False, f"PyRt.tuple_ {acc}"
+                return False, "pure " + acc
             items = ", ".join(self.val(x) for x in e.elts)
             k = "tuple" if isinstance(e, ast.Tuple) else "list"
             return True, f"(PyVal.{k} [{items}])"
